@@ -60,3 +60,14 @@ claim('C08',
       'the sign condition at order 4 with symbolic knots is unknown to z3 after 240 s); orders 4-6 otherwise on three concrete knot families. '
       'Polynomial / rational-function identities are normalised to canonical form before they are handed to z3 (pathsym/polynorm.py). '
       'Explicit/placed breakpoints and everyn data are assumed increasing. npoly > 1 not covered.', 'DESIGN.md 4/C08')
+claim('C09',
+      'PARTIAL. bspline.fit/action/value/maskpoints and cholesky_band/cholesky_solve are executed with the data vector y in R^n '
+      'symbolic (n <= 10) on concrete exact-rational abscissa/knot/weight layouts (incl. zero weights): status 0, the coefficients '
+      'satisfy the full weighted normal equations assembled independently by the harness (with a positive-definite normal matrix: the '
+      'unique minimiser), equal an independent dense exact solve, reproduce every polynomial of degree < order (symbolic polynomial '
+      'coefficients), do not depend on y at zero-weight points and are linear in y. cholesky_band\'s own logic (diagonal screening against '
+      'mininf, padding, error localisation, solve) is executed on a fully symbolic banded matrix (n <= 3 quick / 4 thorough, bandwidth <= 3). '
+      'Ill-posed problems (gap, zero-weight block, all-zero weights, too few breakpoints, negative weights) must return a documented status.',
+      'scipy cholesky_banded / cho_solve_banded are contract stubs (LinAlgError iff a leading minor <= 0; exact solution of A x = b): the '
+      'numerical factorisation L L^T = A is LAPACK behind FFI and is assumed, not checked. Floats are exact reals; non-finite input is '
+      'outside the claim (isfinite is constantly true). Order 1 only where no datum sits on an interior breakpoint.', 'DESIGN.md 4/C09')
